@@ -26,7 +26,6 @@ struct OP : OcpBase {
     static constexpr bool has(int b) { return (HAS >> b) & 1; }
     static constexpr bool prv(int b) { return (PROV >> b) & 1; }
     static constexpr length_t NX = C20_OCP_NX, NU = C20_OCP_NU;
-    static constexpr length_t RW = has(O_R_WORK) ? C20_OCP_RWORK : 0, SW = has(O_S_WORK) ? C20_OCP_SWORK : 0;
     bool val(int b) const { return (pv >> b) & 1; }
     void eval_proj_diff_g(crvec z, rvec e) const { LOG("eval_proj_diff_g"); c20_proj_diff_g(z.size(), z.data(), e.data()); }
     void eval_proj_multipliers(rvec y, real_t M) const { LOG("eval_proj_multipliers"); c20_proj_multipliers(y.size(), y.data(), M); }
@@ -45,10 +44,10 @@ struct OP : OcpBase {
     void eval_q_N(crvec x, crvec h, rvec q) const { LOG("eval_q_N"); c20o_q_N(NX, nh, x.data(), h.data(), q.data()); }
     void eval_add_Q(index_t t, crvec xu, crvec h, rmat Q) const { LOG("eval_add_Q"); c20o_add_Q(NX, NU, nh, t, xu.data(), h.data(), Q.data()); }
     void eval_add_Q_N(crvec x, crvec h, rmat Q) const requires(has(O_ADD_Q_N)) { LOG("eval_add_Q_N"); c20o_add_Q_N(NX, nh, x.data(), h.data(), Q.data()); }
-    void eval_add_R_masked(index_t t, crvec xu, crvec h, crindexvec mask, rmat R, rvec work) const { LOG("eval_add_R_masked"); c20o_add_R_masked(NX, NU, nh, t, xu.data(), h.data(), mask.data(), NU, R.data(), work.data(), RW); }
-    void eval_add_S_masked(index_t t, crvec xu, crvec h, crindexvec mask, rmat S, rvec work) const { LOG("eval_add_S_masked"); c20o_add_S_masked(NX, NU, nh, t, xu.data(), h.data(), mask.data(), NU, S.data(), work.data(), SW); }
-    void eval_add_R_prod_masked(index_t t, crvec xu, crvec h, crindexvec mJ, crindexvec mK, crvec v, rvec out, rvec work) const requires(has(O_R_PROD)) { LOG("eval_add_R_prod_masked"); c20o_add_R_prod_masked(NX, NU, nh, t, xu.data(), h.data(), mJ.data(), NU, mK.data(), 1, v.data(), out.data(), work.data(), RW); }
-    void eval_add_S_prod_masked(index_t t, crvec xu, crvec h, crindexvec mK, crvec v, rvec out, rvec work) const requires(has(O_S_PROD)) { LOG("eval_add_S_prod_masked"); c20o_add_S_prod_masked(NX, NU, nh, t, xu.data(), h.data(), mK.data(), 1, v.data(), out.data(), work.data(), SW); }
+    void eval_add_R_masked(index_t t, crvec xu, crvec h, crindexvec mask, rmat R, rvec work) const { LOG("eval_add_R_masked"); c20o_add_R_masked(NX, NU, nh, t, xu.data(), h.data(), mask.data(), NU, R.data(), work.data(), work.size()); }
+    void eval_add_S_masked(index_t t, crvec xu, crvec h, crindexvec mask, rmat S, rvec work) const { LOG("eval_add_S_masked"); c20o_add_S_masked(NX, NU, nh, t, xu.data(), h.data(), mask.data(), NU, S.data(), work.data(), work.size()); }
+    void eval_add_R_prod_masked(index_t t, crvec xu, crvec h, crindexvec mJ, crindexvec mK, crvec v, rvec out, rvec work) const requires(has(O_R_PROD)) { LOG("eval_add_R_prod_masked"); c20o_add_R_prod_masked(NX, NU, nh, t, xu.data(), h.data(), mJ.data(), NU, mK.data(), 1, v.data(), out.data(), work.data(), work.size()); }
+    void eval_add_S_prod_masked(index_t t, crvec xu, crvec h, crindexvec mK, crvec v, rvec out, rvec work) const requires(has(O_S_PROD)) { LOG("eval_add_S_prod_masked"); c20o_add_S_prod_masked(NX, NU, nh, t, xu.data(), h.data(), mK.data(), 1, v.data(), out.data(), work.data(), work.size()); }
     length_t get_R_work_size() const requires(has(O_R_WORK)) { LOG("get_R_work_size"); return C20_OCP_RWORK; }
     length_t get_S_work_size() const requires(has(O_S_WORK)) { LOG("get_S_work_size"); return C20_OCP_SWORK; }
     void eval_constr(index_t t, crvec x, rvec c) const requires(has(O_CONSTR)) { LOG("eval_constr"); c20o_constr(NX, nc, t, x.data(), c.data()); }
